@@ -22,7 +22,10 @@ Record rp_cfg := mkCfg {
   cf_allow_none : bool;            (* usage verify_args allow_sign_alg_none *)
   cf_skew : Z;                     (* context.clock_skew *)
   cf_allow_missing_kid : bool;     (* context.allow["missing_kid"] *)
-  cf_jar : jar
+  cf_jar : jar;
+  cf_encalg : option pystr;        (* id_token_encrypted_response_alg: registered, else configured usage *)
+  cf_encenc : option pystr;        (* id_token_encrypted_response_enc: registered, else configured usage *)
+  cf_dec : list nat                (* the client's own decryption keys *)
 }.
 
 Notation record := (list (pystr * pyval)).
@@ -39,7 +42,9 @@ Definition eff_sigalg (c : rp_cfg) : option pystr :=
 (* Authorization / AccessToken gather_verify_arguments *)
 Definition svc_kwargs (c : rp_cfg) : kwargs :=
   mkKw (Some (cf_issuer c)) (match cf_client_id c with [] => None | i => Some i end) (eff_sigalg c) None
-       (cf_allow_none c) (Some (cf_skew c)) None (cf_allow_missing_kid c) None (cf_jar c).
+       (cf_allow_none c) (Some (cf_skew c)) None (cf_allow_missing_kid c) None (cf_jar c)
+       (match cf_encalg c with Some (x :: a) => Some (x :: a) | _ => None end)
+       (match cf_encenc c with Some (x :: a) => Some (x :: a) | _ => None end) (cf_dec c).
 
 (* ---- Current ---- *)
 Definition db_get (db : list (pystr * record)) (k : pystr) : res record :=
